@@ -739,7 +739,7 @@ def real_worker(job):
     modpath = SCRATCH / f"{modname}.py"
     xml = SCRATCH / f"c08_{wid}.xml"
     out: dict = {}
-    gen_py = default_tmp_dir(None, remove_old_cache=False) / f"mb_c08_{wid}.py"
+    gen_dir = default_tmp_dir(None, remove_old_cache=False)
     try:
         modpath.write_text(case["source"])
         spec = importlib.util.spec_from_file_location(modname, modpath)
@@ -772,13 +772,13 @@ def real_worker(job):
             out["read"] = {"err": "eval:" + type(e).__name__, "msg": str(e)[:200]}
         return out
     finally:
-        for p in (modpath, xml, gen_py):
+        for p in (modpath, xml, *gen_dir.glob(f"mb_c08_{wid}*.py")):
             try:
                 p.unlink()
             except OSError:
                 pass
-        sys.modules.pop(modname, None)
-        sys.modules.pop(f"mb_c08_{wid}", None)
+        for k in [k for k in sys.modules if k == modname or k.startswith(f"mb_c08_{wid}")]:
+            sys.modules.pop(k, None)
 
 
 _pool = None
